@@ -25,9 +25,18 @@ ASSUMPTIONS = ['h-functions: the family classes\' own partial_derivative (tied t
 FAM = {0: 'clayton', 1: 'frank', 2: 'gumbel'}
 
 
+# regression witnesses of repaired findings (a fixed entry in known_findings.json suppresses nothing: if the
+# defect returns, these cases report it in every run, whatever the seed)
+PINNED = [
+    # F33: a Clayton h-value of 1 + 2e-16 in tree 3 escaped the {0,1} correction
+    {'mode': 'fit', 'table': {'d': 5, 'n': 200, 'pattern': 'ties', 'perm': [1, 3, 2, 0, 4], 'seed': 620322134},
+     'vine_type': 'regular', 'truncated': 10, 'sentinel': 'neg', 'seed': 935348027},
+]
+
+
 def cases(seed, tier):
     rng = rng_for(seed, 'C17')
-    out = []
+    out = [dict(c) for c in PINNED]
     for r in range(150 if tier == 'quick' else 7000):
         d = int(rng.choice([2, 3, 4, 5, 6], p=[.1, .25, .3, .2, .15]))
         perm = [int(x) for x in rng.permutation(d)]
@@ -63,8 +72,8 @@ def _copula(name, theta):
 def _h(copula, x, y):
     """h(x | y) = dC/dv at (u=x, v=y) with the library's documented 0/1 correction."""
     out = np.asarray(copula.partial_derivative(np.column_stack([x, y])), dtype=float).copy()
-    out[out == 0] = EPS32
-    out[out == 1] = 1 - EPS32
+    out[out <= 0] = EPS32             # also values that rounding left an ulp outside [0, 1] (finding F33)
+    out[out >= 1] = 1 - EPS32
     return out
 
 
